@@ -95,4 +95,40 @@ def tqDrain (sec usec : Int) : Nat → TimerQueue.TQ → List (Nat × Nat)
     | (q', some rp) => rp :: tqDrain sec usec fuel q'
     | (_, none) => []
 
+/-! ## op-sequence semantics of the timer-queue model (the `t_*` part of `Driver/Heap.lean`) -/
+
+structure TSt where
+  q : TimerQueue.TQ
+  live : List Nat
+
+def TSt.init : TSt := { q := TimerQueue.empty, live := [] }
+
+def tstep (s : TSt) : TOp → TSt × TAns
+  | .add r sec usec p =>
+      if s.live.contains r then (s, .skip)
+      else ({ q := TimerQueue.add s.q r sec usec p, live := r :: s.live }, .ok)
+  | .del r =>
+      if !s.live.contains r then (s, .skip) else
+      match TimerQueue.delete s.q r with
+      | some q => ({ q, live := s.live.erase r }, .ok)
+      | none => (s, .precondition)
+  | .inc r sec usec =>
+      if !s.live.contains r || timeKey sec usec < TimerQueue.key s.q.recs r then (s, .skip) else
+      match TimerQueue.increase s.q r sec usec with
+      | some q => ({ s with q }, .ok)
+      | none => (s, .precondition)
+  | .getmin => (s, .tmin (TimerQueue.getmin s.q))
+  | .get sec usec =>
+      match TimerQueue.getptr s.q sec usec with
+      | (q, some (r, p)) => ({ q, live := s.live.erase r }, .rel (some (r, p)))
+      | (_, none) => (s, .rel none)
+
+def trun (s : TSt) : List TOp → TSt
+  | [] => s
+  | op :: ops => trun (tstep s op).1 ops
+
+def ttrace (s : TSt) : List TOp → List (TOp × TAns)
+  | [] => []
+  | op :: ops => (op, (tstep s op).2) :: ttrace (tstep s op).1 ops
+
 end Percival.Model.HeapRun
